@@ -1,6 +1,7 @@
 import LentilVerif.Model.Basic
 import LentilVerif.Gen.FieldIdx
 import LentilVerif.Gen.FieldMerge
+import LentilVerif.Gen.FieldDispatch
 /-! Executable model of `lentil/field.py` (Field.__mul__, merge, reduce, insert), generic in the value type.
 Index arithmetic comes from the generated kernel (`Gen.*`); the array plumbing is written by hand and tied to the
 implementation by the correspondence harness (tools/harness/c06.py). Mathlib-free. -/
@@ -46,11 +47,19 @@ def Fld.mulArr [Mul K] (a b : Fld K) : Option (Fld K) :=
 def Fld.broadcastTo (a b : Fld K) : Fld K :=
   { arr := { s0 := b.arr.s0, s1 := b.arr.s1, get := fun _ _ => a.arr.get 0 0 }, o0 := b.o0, o1 := b.o1 }
 
-/-- `Field.__mul__` -/
+/-- `Field.size` (`data.size`; array dimensions are non-negative) -/
+def Fld.size (f : Fld K) : Int := ((f.arr.s0.toNat * f.arr.s1.toNat : Nat) : Int)
+
+/-- `Field.__mul__`: the dispatch test (`self.size == 1 and other.size == 1`) and `_mul_scalar`'s offset comparison
+(`np.array_equal(self.offset, other.offset)`, value equality whatever the containers) are the generated
+`Gen.mulBothOne` / `Gen.mulScalarSame`
+(closed form: `Fld.mul_closed` in Lemmas/Field.lean) -/
 def Fld.mul [Mul K] (a b : Fld K) : Option (Fld K) :=
-  if a.size1 && b.size1 then
+  if Gen.mulBothOne a.size b.size then
     -- `_mul_scalar`
-    if decide (a.o0 = b.o0) && decide (a.o1 = b.o1) then
+    -- the container types of the two offsets (list / tuple / ndarray: the `_kind` parameters) are not part of the model;
+    -- `Props/C06.mul_dispatch_spec` shows the generated comparison does not depend on them
+    if Gen.mulScalarSame a.o0 a.o1 0 b.o0 b.o1 0 then
       some { arr := { s0 := 1, s1 := 1, get := fun _ _ => a.arr.get 0 0 * b.arr.get 0 0 }, o0 := a.o0, o1 := a.o1 }
     else none
   else
@@ -94,18 +103,25 @@ def firstPair (gs : List (Group K)) : Option (Nat × Nat) :=
     | some gm, some gk => intersect gm.extent gk.extent
     | _, _ => false
 
-/-- `lentil.field._disjoint` (fuel = number of groups suffices: every step removes one group) -/
+/-- `lentil.field._disjoint` (fuel = number of groups suffices: every step removes one group). The merge step follows the
+constants recognised in the source (`Gen.disjointStep` = (kept, appended, recomputed, popped) with 0 for `m`, 1 for `n`):
+`fields[kept]['field'].extend(fields[appended]['field'])`, `fields[r]['extent'] = boundary(fields[r]['field'])`,
+`fields.pop(popped)`; closed form for the current source: `disjoint_succ_some` (Lemmas/Reduce.lean) -/
 def disjoint : Nat → List (Group K) → List (Group K)
   | 0, gs => gs
   | fuel + 1, gs =>
     match firstPair gs with
     | none => gs
     | some (m, k) =>
-      match gs[m]?, gs[k]? with
-      | some gm, some gk =>
-        let fs := gm.fields ++ gk.fields
-        let g' : Group K := { fields := fs, extent := boundaryL (fs.map Fld.extent) }
-        disjoint fuel ((gs.set m g').eraseIdx k)
+      let st := Gen.disjointStep
+      let ix := fun (c : Int) => if c = 0 then m else k
+      match gs[ix st.1]?, gs[ix st.2.1]? with
+      | some gkeep, some gsrc =>
+        let gs1 := gs.set (ix st.1) { fields := gkeep.fields ++ gsrc.fields, extent := gkeep.extent }
+        let gs2 := match gs1[ix st.2.2.1]? with
+          | some gr => gs1.set (ix st.2.2.1) { gr with extent := boundaryL (gr.fields.map Fld.extent) }
+          | none => gs1
+        disjoint fuel (gs2.eraseIdx (ix st.2.2.2))
       | _, _ => gs
 
 /-- `lentil.field.reduce` -/
